@@ -484,10 +484,19 @@ impl CoreInner {
 		// Schedule async WAL cleanup
 		let wal_dir = self.wal.read().get_dir_path().to_path_buf();
 		let min_wal_to_keep = entry.wal_number + 1;
+		let level_manifest = Arc::clone(&self.level_manifest);
 
 		tokio::spawn(async move {
 			#[cfg(surrealkv_verif)]
 			crate::verif::bg_progress();
+			// This task may run arbitrarily later. Segments at or above the manifest's
+			// log_number are never obsolete; re-check it now, because a restore from a
+			// checkpoint can have rewound the manifest (and re-created lower-numbered
+			// segments that hold live data) since this flush finished.
+			let min_wal_to_keep = match level_manifest.read() {
+				Ok(manifest) => min_wal_to_keep.min(manifest.get_log_number()),
+				Err(_) => return,
+			};
 			match cleanup_old_segments(&wal_dir, min_wal_to_keep) {
 				Ok(count) if count > 0 => {
 					log::info!(
